@@ -123,10 +123,9 @@ func (r *SeqRun) finish(t0 time.Time) int {
 	for id, n := range r.KFHits {
 		fmt.Printf("KNOWN-FINDING: property=%s %s (%d events)\n", r.P.Prop, kfWhat(id), n)
 	}
-	states, trans := r.States, r.Trans
-	if states == 0 {
-		states, trans = r.TraceSt, r.TraceSt
-	}
+	// TLC states of this run: the bounded design-level runs plus the trace-validation runs (one state per
+	// accepted trace line; for TraceLin the states of the linearization search)
+	states, trans := r.States+r.TraceSt, r.Trans+r.TraceSt
 	cov := map[string]any{
 		"states":                        states,
 		"transitions":                   trans,
@@ -140,6 +139,8 @@ func (r *SeqRun) finish(t0 time.Time) int {
 		"events_by_kind":      r.Counts,
 		"design_runs":         r.Design,
 		"trace_states":        r.TraceSt,
+		"design_states":       r.States,
+		"design_transitions":  r.Trans,
 		"known_findings_hit":  r.KFHits,
 		"infrastructure":      r.Infra,
 		"notes":               r.Notes,
